@@ -9,20 +9,24 @@ from checks import c16
 
 PID = "C17"
 META = {
-    "text": "Same model as C16 (DiskcrashModel.v) with ALL slot writes of the workload on disk. Theorems "
-            "(Properties_C17.v): the full statement is REFUTED by a vm_compute witness that the check replays on the real "
-            "binary (a completely stored version that replaced a version occupying more slots is dropped by the rebuild: "
-            "the stale extra slot with the same key is counted into the entry size); PROVED for all workloads that write "
-            "every slot at most once (see the file).",
-    "note": "partial: rock only (ufs/aufs/diskd, i.e. swap.state writing and cleaning, not modelled or exercised); "
-            "theorems are about the transcribed model, tied to the code by the generated layout constants and the "
-            "end-to-end correspondence (write trace, hit/miss and hit bytes after a real SIGTERM + restart). Eviction "
-            "by replacement policy (cache full) is not exercised: histories use ample space. Trusted: Coq kernel, "
-            "extraction, gen/gen_diskcrash.cc, vlib/lab.py stubs.",
-    "technique": "Coq proof (rebuild scan invariant over write-once images; vm_compute witness for the refutation) + "
-                 "end-to-end differential correspondence of the extracted model against the running squid across a "
-                 "clean shutdown and restart + independent oracle (latest completely stored version must be a hit "
-                 "with identical bytes)",
+    "text": "Same model as C16 (DiskcrashModel.v) with ALL slot writes of the workload on disk. Theorems (Properties_C17.v, "
+            "closed under the global context): (1) C17_rock_overwrite_by_smaller_survives_refuted: the full statement is "
+            "FALSE -- a completely stored version that replaced a version occupying MORE slots is dropped by the rebuild "
+            "after a clean restart (the stale extra slot still carries the key, addSlotToEntry counts it into le.size, "
+            "finalizeOrThrow's size check fails); witness replayed on the real binary on every run (known finding); (2) "
+            "C17_rock_write_once_entries_survive_partial: for ALL workloads that write every slot at most once, every "
+            "stored entry is a hit with identical bytes after the restart (same rebuild invariants as C16).",
+    "note": "partial: rock only (ufs/aufs/diskd, i.e. swap.state writing and cleaning, not modelled or exercised); slot "
+            "reuse after purges/overwrites is covered by the end-to-end runs and the C16 bounded sweep only. Also observed "
+            "(model and binary agree; not a C17 violation): a PURGE is not persisted by rock, the purged entry is a hit "
+            "again after a restart unless its slots were reused. Theorems are about the transcribed model, tied to the "
+            "code by the generated layout constants and the end-to-end correspondence (write trace, hit/miss and hit bytes "
+            "after a real SIGTERM + restart). Eviction by replacement policy (cache full) is not exercised: histories use "
+            "ample space. Trusted: Coq kernel, extraction, gen/gen_diskcrash.cc, vlib/lab.py stubs.",
+    "technique": "Coq proof (rebuild scan/validation invariants over write-once images; vm_compute witness for the "
+                 "refutation) + end-to-end differential correspondence of the extracted model against the running squid "
+                 "across a clean shutdown and restart + independent oracle (latest completely stored version must be a "
+                 "hit with identical bytes)",
 }
 
 
